@@ -13,6 +13,7 @@ package upgrade
 
 import (
 	"fmt"
+	"math/big"
 	"sort"
 	"strconv"
 	"strings"
@@ -194,13 +195,24 @@ func (w *world) expectations(pre []chainx.KV, vb int) []question {
 			}
 			return "A[" + strings.Join(xs, ",") + "]"
 		}
-		for d := 0; d < count && d < 4; d++ {
+		// every retained network map, through both getters that reach it: snapshot(d) for ALL d < count (the ring may
+		// be longer or shorter than the default 10) and snapshotByEpoch(current epoch - d)
+		epoch, epochOK := new(big.Int), false
+		if v, ok := m["snapshotEpoch"]; ok {
+			if z, err := stackitem.NewByteArray(v).TryInteger(); err == nil {
+				epoch, epochOK = z, true
+			}
+		}
+		for d := 0; d < count; d++ {
 			id := ((cur-d)%count + count) % count
 			want := "A[]"
 			if v, ok := m["snapshot_"+string([]byte{byte(id)})]; ok {
 				want = nodes(v)
 			}
 			add(fmt.Sprintf("snapshot:%d", d), want)
+			if epochOK {
+				add("snapshotByEpoch:"+new(big.Int).Sub(epoch, big.NewInt(int64(d))).String(), want)
+			}
 			if d == 0 {
 				add("netmap", want)
 			}
@@ -355,6 +367,8 @@ func (w *world) answer(q string) string {
 	case "netmap.snapshot":
 		d, _ := strconv.Atoi(arg)
 		return item("snapshot", d)
+	case "netmap.snapshotByEpoch":
+		return item("snapshotByEpoch", hx.Big(arg))
 	case "netmap.candidates":
 		if it, ok := w.call("netmapCandidates"); ok {
 			if l, isArr := it.Value().([]stackitem.Item); isArr {
